@@ -86,6 +86,25 @@ func runC06(c *Ctx) {
 				}
 			}
 			c.Check(ok, fk(f, "deletes-collected-keys"), d, "store.Delete is applied to the collected (due) keys only")
+			// and what is collected is the visited entry's own key (a rebuilt key need not be the entry's)
+			okKey, found := true, ""
+			for _, r := range elementSource(arg(d, 0)) {
+				cl, _ := callOf(r)
+				if cl == nil || !isCallTo(cl, "builtin.append") {
+					continue
+				}
+				elems, okE := appendedElems(cl)
+				if !okE {
+					okKey, found = false, describe(cl)
+				}
+				for _, e := range elems {
+					kc, _ := callOf(e)
+					if kc == nil || !isIteratorKey(kc) {
+						okKey, found = false, describe(e)
+					}
+				}
+			}
+			c.Check(okKey, fk(f, "deleted-key-is-entry-key"), d, "every collected key is iterator.Key() of the visited entry"+map[bool]string{true: "", false: "; found " + found}[okKey])
 		}
 	}
 
